@@ -138,8 +138,20 @@ func (sd *c01Side) feature(rc *RC, f fcfg) xmpp.StreamFeature {
 	return sf
 }
 
+// c01ReadyMode: the universe is one voluntary feature that declares the session ready and one mandatory feature, seen
+// alike by both sides and advertised together. (With more than one mandatory feature next to a ready-granting one the
+// library stops after the round that set Ready; that is outside what this mode looks at.)
+var c01ReadyMode bool
+
 func genFeatureCfgs(rc *RC, label string) []fcfg {
 	ch := rc.Ch
+	c01ReadyMode = ch.Chance(label, 1, 10)
+	if c01ReadyMode {
+		return []fcfg{
+			{idx: 0, ns: "urn:verif:f0", add: xmpp.Ready, proh: xmpp.Ready},
+			{idx: 1, ns: "urn:verif:f1", req: true},
+		}
+	}
 	n := ch.Range(label, 2, 6)
 	bits := []xmpp.SessionState{0, xmpp.Secure, xmpp.Authn, xmpp.Secure | xmpp.Authn}
 	var out []fcfg
@@ -189,6 +201,9 @@ func runC01(rc *RC) {
 	// each side gets its own view of the universe: subset, flags may disagree
 	view := func(label string) []fcfg {
 		var v []fcfg
+		if c01ReadyMode {
+			return append(v, universe...)
+		}
 		for _, f := range universe {
 			if ch.Chance(label, 1, 6) {
 				continue
@@ -285,7 +300,13 @@ func runC01(rc *RC) {
 			d := xml.NewDecoder(S.conn)
 			nextList := func() {
 				var l []fcfg
+				if c01ReadyMode {
+					l = append(l, universe...)
+				}
 				for _, f := range universe {
+					if c01ReadyMode {
+						break
+					}
 					if ch.Chance("script", 1, 2) {
 						g := f
 						if ch.Chance("script", 1, 4) {
@@ -294,10 +315,10 @@ func runC01(rc *RC) {
 						l = append(l, g)
 					}
 				}
-				if ch.Chance("script", 1, 6) {
+				if !c01ReadyMode && ch.Chance("script", 1, 6) {
 					l = append(l, fcfg{idx: 99, ns: "urn:verif:unknown", req: ch.Chance("script", 1, 2)})
 				}
-				if ch.Chance("script", 1, 8) && len(l) > 0 {
+				if !c01ReadyMode && ch.Chance("script", 1, 8) && len(l) > 0 {
 					l = append(l, l[0]) // repeated advertisement
 				}
 				p := ch.Perm("script", len(l))
